@@ -157,7 +157,7 @@ ApplyPush(st, p, v) ==
      ELSE LET s1 == PutOnly(st, p, Arr(newArr)) IN
           IF s1.err THEN s1
           ELSE IF values = <<>> /\ ~hasPos /\ ~hasSort /\ ~hasSlice THEN s1
-          ELSE IF ~hasSort /\ ~hasSlice /\ insertAt = Len(arr) THEN RecordEach(s1, p, values, insertAt, 1)
+          ELSE IF field # Missing /\ ~hasSort /\ ~hasSlice /\ insertAt = Len(arr) THEN RecordEach(s1, p, values, insertAt, 1)
           ELSE Record(s1, p, Arr(newArr))
 
 ApplyPop(st, p, v) ==
